@@ -1171,6 +1171,17 @@ ht_del(void *p)
    and, for blocks still live, when the execution ends (inv_flags bit 256). */
 #define VS_HDR 16
 #define VS_CAN 16
+/* under ASan the canary is poisoned while the block is live, so that a READ behind the end of a block
+   (which leaves the canary intact) is reported as well */
+#ifdef VS_ASAN
+void __asan_poison_memory_region(void const volatile *addr, size_t size);
+void __asan_unpoison_memory_region(void const volatile *addr, size_t size);
+#define BIG_POISON(p, n) __asan_poison_memory_region(p, n)
+#define BIG_UNPOISON(p, n) __asan_unpoison_memory_region(p, n)
+#else
+#define BIG_POISON(p, n) ((void)0)
+#define BIG_UNPOISON(p, n) ((void)0)
+#endif
 #define VS_MAGIC 0x76734d61u
 struct vs_hdr { uint64_t size; uint32_t magic; uint32_t pad; };
 
@@ -1187,6 +1198,7 @@ canary_check(void *user)
     return;
   }
   c = (unsigned char *)user + h->size;
+  BIG_UNPOISON(c, VS_CAN);
   for (i = 0; i < VS_CAN; i++)
     if (c[i] != (unsigned char)(0xA5 ^ i)) {
       if (!(vs_rec->inv_flags & 256))
@@ -1204,15 +1216,6 @@ canary_check(void *user)
    made the asan variant 50x slower than the code under test.  Under ASan
    (-DVS_ASAN) a kept block is poisoned while nobody owns it, so use after free
    and overruns are still reported. */
-#ifdef VS_ASAN
-void __asan_poison_memory_region(void const volatile *addr, size_t size);
-void __asan_unpoison_memory_region(void const volatile *addr, size_t size);
-#define BIG_POISON(p, n) __asan_poison_memory_region(p, n)
-#define BIG_UNPOISON(p, n) __asan_unpoison_memory_region(p, n)
-#else
-#define BIG_POISON(p, n) ((void)0)
-#define BIG_UNPOISON(p, n) ((void)0)
-#endif
 #define NBIG 48
 #define BIG_MIN (512u << 10)
 static struct { char *b; size_t total; int busy; } BIGC[NBIG];
@@ -1275,6 +1278,7 @@ vs_malloc(size_t n)
     p = b + VS_HDR;
     for (i = 0; i < VS_CAN; i++)
       ((unsigned char *)p)[n + i] = (unsigned char)(0xA5 ^ i);
+    BIG_POISON((char *)p + n, VS_CAN);
     ht_add(p);
   }
   return p;
